@@ -1,0 +1,18 @@
+//go:build verif
+
+package gabikeys
+
+// Verification hooks for property C16 (build tag "verif"): the unexported pair selection of
+// GenerateKeyPair. Add-only; compiled out without the tag.
+
+import "github.com/privacybydesign/gabi/big"
+
+// VerifFindMatch runs findMatch with freshly allocated temporaries.
+func VerifFindMatch(safeprimes []*big.Int, param *SystemParameters, p *big.Int) *big.Int {
+	return findMatch(safeprimes, param, p, new(big.Int), new(big.Int), new(big.Int))
+}
+
+// VerifGenerateSafePrimePair runs generateSafePrimePair (the first step of GenerateKeyPair).
+func VerifGenerateSafePrimePair(param *SystemParameters) (*big.Int, *big.Int, error) {
+	return generateSafePrimePair(param)
+}
